@@ -1,0 +1,42 @@
+//! Verification hook, compiled only with `--cfg libp2p_verif`: a read-only snapshot of the
+//! relay's resource bookkeeping (`Behaviour::connections`, `Behaviour::circuits`).
+
+use super::*;
+
+impl Behaviour {
+    /// `(peer, connection, reservation is active)` for every tracked connection.
+    pub fn verif_c47_connections(&self) -> Vec<(PeerId, ConnectionId, bool)> {
+        self.connections
+            .iter()
+            .flat_map(|(p, cs)| cs.iter().map(move |(c, r)| (*p, *c, r.is_active())))
+            .collect()
+    }
+
+    /// Peers that have an entry in `connections` (possibly with an empty connection map).
+    pub fn verif_c47_peers(&self) -> Vec<(PeerId, usize)> {
+        self.connections.iter().map(|(p, cs)| (*p, cs.len())).collect()
+    }
+
+    /// `(circuit id, src peer, src connection, dst peer, dst connection, accepted)`.
+    pub fn verif_c47_circuits(&self) -> Vec<(u64, PeerId, ConnectionId, PeerId, ConnectionId, bool)> {
+        self.circuits
+            .circuits
+            .iter()
+            .map(|(id, c)| {
+                (
+                    id.0,
+                    c.src_peer_id,
+                    c.src_connection_id,
+                    c.dst_peer_id,
+                    c.dst_connection_id,
+                    matches!(c.status, CircuitStatus::Accepted),
+                )
+            })
+            .collect()
+    }
+
+    /// `num_circuits_of_peer` and `len` as the admission test sees them.
+    pub fn verif_c47_counts(&self, peer: PeerId) -> (usize, usize) {
+        (self.circuits.num_circuits_of_peer(peer), self.circuits.len())
+    }
+}
